@@ -25,7 +25,28 @@ class BuiltinMixin:
             raise Unsupported('builtin %s' % name)
         return m(args, kwargs, node)
 
+    def bi_iter(self, args, kwargs, node):
+        '''iter(<list>): an iterator over a list value is the list plus a position; the position lives in a hidden
+        local `_it_<name of the list variable>` so that loop cuts and loop invariants can speak about it.'''
+        v = args[0]
+        if isinstance(v.t, TList) and node is not None and node.args and isinstance(node.args[0], ast.Name):
+            name = '_it_' + node.args[0].id
+            self.frame.locals[name] = mk_int(0)
+            return Py('listiter', v, name)
+        raise Unsupported('iter() of %s' % v.t)
+
     def bi_next(self, args, kwargs, node):
+        if is_py(args[0], 'listiter') and len(args) == 1:
+            from . import lists as L
+            _k, lst, name = args[0].py
+            pos = self.frame.locals[name]
+            n = L.l_len(lst.t, lst.z)
+            if not self.branch(pos.z < n):
+                self.py_raise('StopIteration')
+            self.frame.locals[name] = mk_int(pos.z + 1)
+            v = V(lst.t.elem, L.l_get(lst.t, lst.z, pos.z))
+            self.assume_wf(v)
+            return v
         hook = self.spec.callbacks.get('next')
         if hook is not None:
             r = hook(self, args)
